@@ -213,6 +213,8 @@ def pred_no_agreement(io, sc):
         return None
     q = m.get("q")
     mm = m.get("mismatch")
+    if mm.startswith("tamper") and m["dA"] == m["mB"] and m["dB"] == m["mA"]:
+        return None     # the edit was a no-op on this message
     x, y, wv = m["x"], m["y"], m.get("w")
     if mm in ("blindM", "blindN", "blindS", "generator") and q:
         cond = {"blindM": wv * y, "blindN": wv * x, "blindS": wv * (x + y), "generator": x * y}[mm] % q == 0
